@@ -80,6 +80,22 @@ CLAIMED = {
         technique="symbolic execution of the real handlers on IEEE-754 proxies (QF_FP, cvc5, range-split queries), "
                   "on rounding-model reals and on ideal reals (z3)",
         design="3.17"),
+    "C06": dict(
+        text="heap.c is parsed from source on every run and executed by a C interpreter over symbolic times/handler "
+             "ids/counters: one inductive step of insert, root (lazy deletion with an arbitrary liveness predicate), "
+             "delete_events, entry from an arbitrary heap satisfying the representation invariant (sizes 0-11 and "
+             "across the first reallocation; thorough 0-15, 61-66) proves invariant preservation, multiset "
+             "preservation, minimality/liveness of the returned entry and in-bounds, initialised accesses only. The "
+             "real HeapScheduler (on that interpreter), ListScheduler and a reference minimum are run on every "
+             "protocol-respecting history of 4 (thorough 7) operations with symbolic or infinite times, with "
+             "counters preset around 2^32 and with a getstate/setstate round trip at any point.",
+        note="Finite doubles modelled as reals (compare/copy only); realloc always succeeds; cffi mimicked by a shim "
+             "(validated against the natively compiled heap.c on seeded sequences each run); root() explored with "
+             "<= 2 (small heaps) / 1 consecutive dead roots, longer runs by induction on its loop; counterexamples "
+             "are replayed on the natively compiled C (ASan/UBSan driver or the real cffi build).",
+        technique="symbolic interpretation of the C source (pycparser AST) and symbolic execution of the Python "
+                  "wrapper; z3 path feasibility + one QF_LRA/LIA validity query per obligation",
+        design="3.6"),
 }
 
 NOT_APPLICABLE = {
